@@ -1042,17 +1042,23 @@ def facts_vs_formula(facts: Set[Tuple[str, bool]], formula: str) -> Tuple[bool, 
 
 
 # --------------------------------------------------------------------------- first active entry wins
-def first_match_loops(ctx, quals: Iterable[str], why: str, suffixes: Tuple[str, ...] = (".defaults", ".ranges")) -> int:
+def first_match_loops(ctx, quals: Iterable[str], why: str, suffixes: Tuple[str, ...] = (".defaults", ".ranges"),
+                      entry_filters: Tuple[str, ...] = ()) -> int:
     """In every search loop over a property list (`for value, cond in X.defaults:` with a break / return in it) the first
     entry whose condition holds ends the search: every path through the arm that is taken when the condition is true
     leaves the loop. (A `break` that depends on the entry's *value* lets a later entry overrule an earlier active one.)"""
     repo = ctx.repo
     n_loops = 0
 
-    def leaves(stmts):
-        """the statement sequence leaves the loop on every path (break / return / raise) before it could reach the next entry"""
+    def leaves(stmts, value_var=None):
+        """the statement sequence leaves the loop on every path (break / return / raise) before it could reach the next entry.
+        entry_filters: further conditions on the entry itself (`{v}.visibility`) that are part of what the search looks for -
+        written as one condition with the entry's own or as a separate `if` behind it, an entry failing them is passed over"""
         for st in stmts:
             if isinstance(st, (ast.Break, ast.Return, ast.Raise)):
+                return True
+            if value_var and isinstance(st, ast.If) and not st.orelse and ast.unparse(st.test) in [x.format(v=value_var) for x in entry_filters] \
+                    and leaves(st.body, value_var):
                 return True
             if isinstance(st, ast.Continue):
                 return False
@@ -1088,8 +1094,8 @@ def first_match_loops(ctx, quals: Iterable[str], why: str, suffixes: Tuple[str, 
                 t = st.test
                 if isinstance(t, ast.UnaryOp) and isinstance(t.op, ast.Not):
                     # `if not <active>: continue` - the active entry is handled by what follows
-                    return leaves(list(st.orelse) + rest)
-                return leaves(list(st.body) + rest)
+                    return leaves(list(st.orelse) + rest, names[0])
+                return leaves(list(st.body) + rest, names[0])
             if not arms:
                 ctx.bad(construct, f"the loop leaves without testing the entry's condition `{cond}`: {why}", f.loc(n))
             elif not all(active_path_leaves(i, a) for i, a in arms):
